@@ -377,6 +377,15 @@ func TestVerif_FsDiff(t *testing.T) {
 			mk("RemoveAll", "a", "c"), mk("RemoveAll", "b"), fsStep{Op: "Glob", K: k}, mk("RemoveAll", "a"), mk("Walk"))
 		runFsScenario(t, tr, steps, i%2 == 1, "fixed", i)
 	}
+	// the listed path (or the directory part of a pattern) is ITSELF a symbolic link: to a directory, to a link to a directory,
+	// to a file, dangling
+	linkDirs := []fsStep{mk("Mkdir", "a"), mk("Create", "a", "a"), mk("Create", "a", "b"), mk("Mkdir", "a", "c"), {Op: "Symlink", K: "la", Q: []string{"b"}}, {Op: "Symlink", K: "lb", Q: []string{"c"}},
+		mk("ReadDir", "b"), mk("ReadDir", "c"), {Op: "Glob", P: []string{"b"}, K: "wild"}, {Op: "Glob", P: []string{"c"}}, mk("Walk", "b"), mk("Stat", "b"), mk("Lstat", "b"),
+		mk("Remove", "c"), {Op: "Symlink", K: "lc", Q: []string{"c"}}, mk("ReadDir", "c"), {Op: "Glob", P: []string{"c"}},
+		mk("Remove", "c"), {Op: "Symlink", K: "la", Q: []string{"a", "a2"}}, mk("Remove", "a", "a"), {Op: "Symlink", K: "lb", Q: []string{"a", "a"}}, mk("ReadDir", "a", "a"), mk("ReadDir", "a", "b"), mk("ReadDir", "b", "c")}
+	for i := 0; i < 2; i++ {
+		runFsScenario(t, tr, linkDirs, i%2 == 1, "fixed-linkdir", i)
+	}
 	// every open-flag combination on a non-empty file, a missing name, a directory, a link to the file and a dangling link
 	for i, k := range []string{"r", "wt", "rwt", "wcx", "wa", "wc", "rwc", "wct"} {
 		of := func(p ...string) fsStep { return fsStep{Op: "OpenFile", K: k, P: p} }
